@@ -1,0 +1,6 @@
+//go:build !verif
+
+package types
+
+// VerifSkipSeal is a constant false in regular builds: the seal is always verified.
+const VerifSkipSeal = false
